@@ -74,6 +74,12 @@ def skip_classification():
               ["lexer/token.rs::Token::{is_skip_token,is_effectively_skip_token,is_comment_token}", "lr_parser/parse_tree.rs::LRParseTree::is_skip_token"], timeout=900)]
 
 
+def state_skip_lookup():
+    return [H(KER + "c17_state_skip_lookup", "two scanner states with symbolic skip lists of <= 3 entries in ANY order, a third state without list; every token type",
+              ["lexer/token_stream.rs::TokenStream::is_state_skip_token"], timeout=1200,
+              assumes=["TokenStream built by the cfg(kani) constructor hook with an idle scnr2 iterator; only the skip-list lookup is exercised"])]
+
+
 def pop_n(quick_lens=(0, 1, 2, 3, 6)):
     return [H(KER + "c17_pop_n_len%d" % n, "stack of %d entries with symbolic 'counted' flags, n symbolic 0..=6; instantiation T = Flag (u8 id + bool)" % n,
               [PS + "pop_n", PS + "split_off"], tiers=("quick", "thorough") if n in quick_lens else ("thorough",), timeout=900,
@@ -96,14 +102,18 @@ def replayer(h, hr, target_dir, package):
     src, vecs, out = kani.concrete_values(CRATE, h.name, target_dir)
     if not src:
         return None, {"error": "no concrete values", "tail": out[-1200:]}
-    parts = h.name.split("::")
-    if parts[0] == "verif_kani":
-        modpath = "super::" + parts[1]
-    else:
-        # harness lives in a child module of parser_types; reach it by absolute path
-        modpath = "crate::" + "::".join(parts[:-1])
-    ok, o = playback_incrate(CRATE, "parol_runtime", modpath, src, "rt")
+    ok, o = _pb(h.name, src)
     return ok, {"harness": h.name, "values": vecs, "playback_test": src, "playback_tail": o[-1200:]}
+
+
+def _pb(name, src):
+    parts = name.split("::")
+    if parts[0] == "verif_kani":
+        return playback_incrate(CRATE, "parol_runtime", "super::" + parts[1], src, "rt")
+    # harness lives in a cfg(kani) child module of one of the parser_types.rs files: the generated
+    # test goes into that module's own placeholder file
+    gen = "playback_gen_ll.rs" if "verif_ll_steps" in name else "playback_gen_lr.rs"
+    return playback_incrate(CRATE, "parol_runtime", "super", src, "rt", gen_file=gen)
 
 
 def run(prop, harnesses, assumptions, jobs=12):
